@@ -194,6 +194,14 @@ def clone_group_specs():
                 if leaf:
                     nodes.append((parent, "d", None, None))
                 out.append(gen.Spec(tuple(nodes)))
+                # the same chain one level down, below another node p that may hold a d of its own next to the outer x
+                for p_has_d in (False, True):
+                    shifted = [(-1, "p", None, None)] + [(pp + 1, lab, a, b) for pp, lab, a, b in nodes]
+                    if p_has_d:
+                        shifted.append((0, "d", None, None))
+                    sp = gen.Spec(tuple(shifted))
+                    if gen.sibling_ids_unique(sp):
+                        out.append(sp)
     return out
 
 
